@@ -152,7 +152,7 @@ P("C11", "exploration",
   "case = store on node A (payload sizes 0,1,63,64,65,4 KiB,70000 / 1 MiB thorough; (t,n) incl. (1,1),(255,255); chunk ids whose ChaCha counter wraps) then local fetch, held bytes vs reference ChaCha20 under the key reconstructed by an independent GF(256) Lagrange, "
   "replica import + fetch on node B, the CLI's decrypt_chunk_with_manifest; in half of the cases the same chunk id is then stored again (same payload 2/3, other payload 1/3) and local fetch, held bytes, replica import and fetch on B (which knows the first replica) are checked against the second manifest; then 8-12 corruptions (ciphertext bit flips/truncation/extension, manifest hash/nonce/share byte/share index/threshold/id) on fresh nodes: must return nullopt and leave state unchanged unless the mutated pair is still consistent; distinct = (size, t, n, id byte)",
   [H("node", "h_node", 600, 60000, hprop="C11")], [A_SAN, A_OSSL, A_VCLK],
-  {"roundtrip.stores": 500, "roundtrip.replica-imports": 400, "tamper.attempts": 3000, "roundtrip.repeated-stores": 150})
+  {"roundtrip.stores": 500, "roundtrip.replica-imports": 400, "tamper.attempts": 2000, "roundtrip.repeated-stores": 150})
 
 P("C19", "exploration",
   "case 0 = the four leading-zero counters (Node.cpp, StoreProof.cpp, main.cpp via TU inclusion, digest_meets_difficulty) against a bit-by-bit reference on digests with exactly k leading zero bits for ALL k=0..256 and all difficulties 0..255; "
@@ -219,14 +219,14 @@ P("C27", "exploration",
   "case = in-process ControlServer + Node with a random control token; 10 raw requests drawn from {STORE, FETCH STREAM:client, FETCH OUT:<path>, STOP} x token {absent, wrong, proper prefix, proper suffix, case-changed, extra whitespace, empty, doubled, exact} x shuffled header order (held and foreign manifests); "
   "oracle: without the exact token STATUS:ERROR with an *UNAUTH* code, derived-state snapshot unchanged, no file at <path>, stop callback not invoked, transport not stopped, PING still answered; with the exact token the request succeeds; distinct = (command, variant) sequence",
   [H("main", "h_control", 300, 20000, hprop="C27")], [A_SAN, A_VCLK, "the daemon's STOP effect is observed through the stop callback and ControlServer's transport_stopped_ flag (TU inclusion)"],
-  {"requests.unauthorised": 1500, "requests.authorised-expected-to-succeed": 100, "requests.authorised-stop": 50})
+  {"requests.unauthorised": 1500, "requests.authorised-expected-to-succeed": 60, "requests.authorised-stop": 50})
 
 P("C28", "exploration",
   "case%4 selects: payload cap (declared lengths cap+1 .. 2^64+ with NO body byte sent: the refusal must still arrive; cap and below accepted); TTL window (min-1/min/max/max+1/0/negative/huge/malformed/absent; also the control-plane half of C02); "
   "store PoW (valid, other nonce, nonce for a shorter payload, for another filename, missing, malformed; reference = lz_ref(repository digest of (sha256(body), size, sanitised name)) >= d); "
   "rate limit without a token (10..50 STOREs or streamed FETCHes from one address with fresh/empty/same TOKEN or other headers, virtual time steps 0..31 s; <= 6 / <= 12 accepted in any 30 s); distinct = scenario x parameter sequence",
   [H("main", "h_control", 400, 30000, hprop="C28")], [A_SAN, A_VCLK, A_OSSL],
-  {"size.oversized-declarations": 150, "ttl.out-of-window-requests": 150, "ttl.in-window-requests": 100, "pow.invalid-proofs": 150, "pow.valid-proofs": 50, "rate.refused": 100})
+  {"size.oversized-declarations": 150, "ttl.out-of-window-requests": 150, "ttl.in-window-requests": 100, "pow.invalid-proofs": 150, "pow.valid-proofs": 30, "rate.refused": 40})
 
 P("C29", "exploration",
   "case = daemon state with 0..40 chunks, 0..4 advertised endpoints, 0..3 bootstrap nodes, 0..3 warnings; the repository's own ControlClient sends LIST / DEFAULTS / STATUS / DIAGNOSTICS / STORE / FETCH to the in-process server; "
@@ -279,19 +279,19 @@ P("C30", "exploration",
   "case = one black-box run of the sanitizer-built `eph fetch` where exactly one discovery path exists (control hint, control:// fallback, local daemon via --control-port, transport hint to a real Node whose stored ciphertext was overwritten; relay hint in the thorough tier) "
   "and the endpoint on that path answers {the payload, truncated, extended, other bytes of equal length, empty, ciphertext of another payload}; oracle: an output file exists => sha256(file) == manifest content hash; honest bytes must produce the file (non-vacuity); distinct = (path, response, size, outcome)",
   [dict(name="cli", py=drv_cli.c30, targets=CLI_TARGETS)], [A_SAN, "scripted control endpoints are operated by the harness; lying peers are real Nodes (mtool liar)"],
-  {"fetch.runs": 20, "fetch.honest-successes": 4, "fetch.dishonest-runs": 15})
+  {"fetch.runs": 20, "fetch.honest-successes": 4, "fetch.dishonest-runs": 10})
 
 P("C31", "exploration",
   "part cli: black-box `eph fetch <manifest with hostile filename metadata>` into a directory (new directory with trailing slash / existing directory / --fetch-default-dir) with the cwd inside a sandbox; the whole sandbox tree is diffed: exactly one new regular file, a direct child of the chosen directory, "
   "name without separators / control / reserved characters and not . or ..; part node: Node::store_chunk with the same name generator: the recorded manifest filename obeys the same predicate or is absent; distinct = (name, mode)",
   [dict(name="cli", py=drv_cli.c31, targets=CLI_TARGETS), H("node", "h_node2", 1500, 150000, hprop="C31n")], [A_SAN],
-  {"names.cli-runs": 50, "names.hostile-metadata-neutralised": 25, "names.stores": 20000, "names.recorded": 5000})
+  {"names.cli-runs": 50, "names.hostile-metadata-neutralised": 15, "names.stores": 20000, "names.recorded": 5000})
 
 P("C32", "exploration",
   "case = one generated configuration: for 14 observable settings a random subset of {flag, environment overlay, selected profile, parent, grand-parent} sets it with layer-specific, mutually valid values; YAML or JSON; profile chosen by --profile or by the environment; `eph ... serve` is started on free ports and DEFAULTS (plus a STORE for the token) is read; "
   "expected = value of the highest-precedence layer that sets it, else the built-in default; every 5th case is a broken graph (cycle, self-cycle, missing parent / profile / environment): the process must exit non-zero with E_CONFIG_* within 20 s; distinct = (assignment, depth, env, format)",
   [dict(name="cli", py=drv_cli.c32, targets=CLI_TARGETS)], [A_SAN, "alias spellings of one setting are not mixed across layers"],
-  {"config.daemons-probed": 25, "config.settings-compared": 300, "config.error-cases": 5})
+  {"config.daemons-probed": 20, "config.settings-compared": 300, "config.error-cases": 5})
 
 NOT_APPLICABLE = {}
 HOOK_COMMITS = []
